@@ -90,6 +90,12 @@ tools/              selftest (setup_cmd), mkmanifest, mkdesign9, baseline.sh, se
 known_findings.json fixed + open findings;  seeded/<id>/  property-breaking changes with demo and meta
 ```
 
+Exit status of `vcheck`: 0 = held on everything explored (KNOWN-FINDING lines for listed open findings); 1 = at least
+one VIOLATION line, each confirmed by replaying its recorded case twice in fresh interpreters (both replays must
+print `REPRODUCED`); 2 = observations were made but none could be reproduced from its recorded case (printed as
+UNCONFIRMED, no verdict); 3 = the check itself raised (HARNESS-ERROR, no verdict).  Status 1 is never produced
+without a VIOLATION line.
+
 ### 9.2 Things the plan did not foresee
 
 * **The namespace manager leaks every netlist** (`WeakKeyDictionary` whose values reference the
